@@ -124,6 +124,8 @@ def run_case(case, tmp):
                     rnd.r, rnd.idx, rnd.calls = 0.0, 0, []
                     junk = 9000 + j
                     buf.add({f"k{k}": junk * 16 + k for k in K} if is_dict else junk)
+                if len(op) > 3 and op[3]:
+                    buf.get_data(); len(buf)        # the buffer that is loaded into has been read before (views may be cached)
                 buf.load_state(path)
                 out = ["saveload"]
             obs.append([out, view(buf)])
